@@ -339,17 +339,38 @@ fn exercise_opt<O: octseq::octets::Octets>(t: &mut Transcript, opt: &Opt<O>) {
 /// Drive the whole read-side API over `octets`. Panics propagate.
 pub fn read_all(octets: &[u8], order_seed: u64) -> Transcript {
     let mut t = Transcript::new();
+    // the three ways of taking octets as a message agree on what is one; the view that is read below comes from one of them
+    step("Message::try_from_octets");
+    let by_try = Message::try_from_octets(octets);
+    step("Message::from_slice");
+    let by_slice = Message::from_slice(octets).map(|m| m.header()).is_ok();
     step("Message::from_octets");
     let msg = match Message::from_octets(octets) {
-        Ok(m) => m,
+        Ok(m) => {
+            if by_try.is_err() || !by_slice {
+                t.closure_fail = Some(("closure:message-constructors-disagree".into(), format!("{} octets are a message for from_octets, try_from_octets says {}, from_slice {}", octets.len(), by_try.is_ok(), by_slice)));
+            }
+            match by_try {
+                Ok(m2) if order_seed % 2 == 1 => m2,
+                _ => m,
+            }
+        }
         Err(_) => {
             t.add("short");
-            let _ = Message::from_slice(octets).is_err();
+            if by_slice {
+                t.closure_fail = Some(("closure:message-constructors-disagree".into(), format!("{} octets are no message for from_octets, from_slice takes them", octets.len())));
+            }
+            if let Ok(m2) = by_try {
+                // what this constructor lets through is used like any other message
+                t.closure_fail = Some(("closure:message-constructors-disagree".into(), format!("{} octets are no message for from_octets, try_from_octets takes them", octets.len())));
+                step("Message::header_counts[after try_from_octets]");
+                let _ = m2.header_counts().qdcount();
+                let _ = m2.question().count();
+                let _ = format!("{}", m2.display_dig_style());
+            }
             return t;
         }
     };
-    step("Message::from_slice");
-    let _ = Message::from_slice(octets).map(|m| m.header());
     // the order of the blocks is seeded (the property says "in any order");
     // results are recorded per block so the transcript is order-independent
     let mut blocks: Vec<usize> = (0..9).collect();
